@@ -177,4 +177,228 @@ Section Build.
     - intros x Hx. injection Hx as <-.
       apply (r_built_mono _ _ _ _ _ (rel_purge2 s5 consume)). subst s5. cbn. left. reflexivity.
   Qed.
+
+  Notation purge_body := (purge_body is_head is_tail unmarshal c).
+  Notation purge_step := (purge_step is_head is_tail unmarshal c).
+  Notation purgeBuffers := (purgeBuffers is_head is_tail unmarshal c).
+  Notation push := (push is_head is_tail unmarshal c).
+  Notation flush := (flush is_head is_tail unmarshal c).
+  Notation pop := (pop is_head is_tail unmarshal c).
+  Notation step := (step is_head is_tail unmarshal c).
+  Notation run_from := (run_from is_head is_tail unmarshal c).
+  Notation run := (run is_head is_tail unmarshal c).
+
+  Lemma rel_purge_body : forall s0, rel s0 (purge_body s0).
+  Proof.
+    intro s0. unfold SampleBuilder.purge_body.
+    set (s1 := if l_empty (active s0) then _ else s0).
+    assert (R1 : rel s0 s1).
+    { subst s1. destruct (l_empty (active s0)); [|apply rel_refl].
+      eapply rel_trans; [apply rel_set_active|apply rel_log_ev]. intros [H _]. exact H. }
+    destruct (l_hasData (active s1) && (l_head (active s1) =? l_head (filled s1))).
+    - destruct (buildSample_rel true s1) as [Rb _].
+      destruct (snd (buildSample true s1)).
+      + eapply rel_trans; eassumption.
+      + eapply rel_trans; [exact R1|]. eapply rel_trans; [exact Rb|].
+        eapply rel_trans; [|apply rel_release_filled_head].
+        eapply rel_trans; [|apply rel_set_dropped].
+        eapply rel_trans; [apply rel_set_active|apply rel_log_ev].
+        intros [_ [_ Ht]]. split; cbn; [apply inc16_lt|exact Ht].
+    - eapply rel_trans; [exact R1|apply rel_release_filled_head].
+  Qed.
+
+  Lemma rel_purge_step : forall fl s, rel s (fst (purge_step fl s)).
+  Proof.
+    intros fl s. unfold SampleBuilder.purge_step. destruct (purge_cond c fl s); cbn [fst]; [apply rel_purge_body|apply rel_refl].
+  Qed.
+
+  Lemma rel_purgeBuffers : forall fl s, rel s (purgeBuffers fl s).
+  Proof.
+    intros fl s. unfold SampleBuilder.purgeBuffers.
+    set (s1 := purgeConsumedBuffers s).
+    assert (R1 : rel s s1) by apply rel_purgeConsumedBuffers.
+    rewrite iter_pos_nat.
+    assert (R2 : rel s1 (fst (iter_nat (Pos.to_nat (N.succ_pos (purge_measure s1))) (purge_step fl) s1))).
+    { apply (iter_nat_inv (fun x => rel s1 x)); [|apply rel_refl].
+      intros x Hx. eapply rel_trans; [exact Hx|apply rel_purge_step]. }
+    destruct (snd (iter_nat _ _ _)).
+    - eapply rel_trans; [exact R1|]. eapply rel_trans; [exact R2|apply rel_raise; lia].
+    - eapply rel_trans; eassumption.
+  Qed.
+
+  (* ---------- histories ---------- *)
+  Definition pushed_of (ops : list op) : list packet :=
+    flat_map (fun o => match o with OPush pk => [pk] | _ => [] end) ops.
+
+  (* the property's safety clause for one sample, against the packets pushed *)
+  Definition sample_wf (pushed : list packet) (x : sample) : Prop :=
+    exists h hp rest ds,
+      h < 65536 /\
+      s_pkts x = hp :: rest /\
+      Forall2 (fun k p => In p pushed /\ p_seq p = k) (keys_from h (List.length (hp :: rest))) (hp :: rest) /\
+      is_head (p_payload hp) = true /\
+      map (fun p => unmarshal (p_payload p)) (hp :: rest) = map Some ds /\
+      s_data x = concat ds /\
+      s_ts x = p_ts hp /\
+      (forall p, In p (removelast (hp :: rest)) -> p_ts p = p_ts hp /\ ptail p = false) /\
+      (ptail (last rest hp) = false -> p_ts (last rest hp) = p_ts hp).
+
+  Lemma sample_wf_incl : forall P P' x, incl P P' -> sample_wf P x -> sample_wf P' x.
+  Proof.
+    intros P P' x Hi (h & hp & rest & ds & Hh & H1 & H2 & H3 & H4 & H5 & H6 & H7 & H8).
+    exists h, hp, rest, ds. repeat (split; [assumption|]). split; [|tauto].
+    eapply Forall2_mono; [|exact H2]. intros k p [Hin Hs]. split; [apply Hi; exact Hin|exact Hs].
+  Qed.
+
+  Record inv (P : list packet) (s : st) : Prop := mkInv {
+    i_ok : locs_ok s;
+    i_buf : forall k p, In (k, p) (buf s) -> In p P /\ p_seq p = k;
+    i_built : fault s = 0 -> forall x, In x (built s) -> sample_wf P x;
+    i_prep : forall e, In e (prep s) -> In (snd e) (built s);
+    i_nodup : NoDup (pool s);
+    i_pool : forall id, In id (pool s) -> In id (map p_id P);
+    i_released : forall p, In p (released s) -> In p P
+  }.
+
+  Lemma inv_rel : forall P s s', inv P s -> rel s s' -> inv P s'.
+  Proof.
+    intros P s s' [i0 i1 i2 i3 i4 i5 i6] [a0 af a1 a2 a3 a4 a5 a6 a7]. constructor.
+    - auto.
+    - intros k p H. apply i1. apply a1. exact H.
+    - intros Hf x Hx. destruct (a2 Hf i0 x Hx) as [H|H]; [apply i2; auto|].
+      destruct H as (h & hp & rest & ds & Hh & H1 & H2 & H3).
+      exists h, hp, rest, ds. split; [exact Hh|]. split; [exact H1|]. split; [|exact H3].
+      eapply Forall2_mono; [|exact H2]. intros k p Hin. apply i1. exact Hin.
+    - intros e He. destruct (a4 e He) as [H|H]; [apply a3; apply i3; exact H|exact H].
+    - auto.
+    - intros id Hid. apply i5. apply a6. exact Hid.
+    - intros p Hp. destruct (a7 p Hp) as [H|[k H]]; [apply i6; exact H|]. apply (i1 k p H).
+  Qed.
+
+  Lemma inv_incl : forall P P' s, incl P P' -> inv P s -> inv P' s.
+  Proof.
+    intros P P' s Hi [i0 i1 i2 i3 i4 i5 i6]. constructor; auto.
+    - intros k p H. destruct (i1 k p H). split; auto.
+    - intros Hf x Hx. eapply sample_wf_incl; [exact Hi|]. apply i2; assumption.
+    - intros id Hid. specialize (i5 id Hid). apply in_map_iff in i5. destruct i5 as (p & <- & Hp).
+      apply in_map. apply Hi. exact Hp.
+  Qed.
+
+  Lemma inv_st0 : inv [] st0.
+  Proof.
+    constructor; cbn; try (intros; contradiction); try constructor.
+    - split; split; cbn; lia.
+    - split; cbn; lia.
+  Qed.
+
+  Lemma NoDup_insert : forall {A} (l1 l2 : list A) a,
+    NoDup (l1 ++ l2) -> ~ In a (l1 ++ l2) -> NoDup (l1 ++ a :: l2).
+  Proof.
+    intros A l1 l2 a Hn Hi. apply (Permutation.Permutation_NoDup (l := a :: l1 ++ l2)).
+    - apply Permutation.Permutation_middle.
+    - constructor; assumption.
+  Qed.
+
+  Lemma inv_push : forall P s pk,
+    inv P s -> p_seq pk < 65536 -> ~ In (p_id pk) (map p_id P) ->
+    inv (P ++ [pk]) (push pk s).
+  Proof.
+    intros P s pk Hinv Hq Hfresh. unfold SampleBuilder.push.
+    set (s1 := set_buf s _).
+    set (s2 := match compare (filled s1) (p_seq pk) with CVoid => _ | CBefore => _ | CInside => _ | CAfter => _ end).
+    apply (inv_rel _ s2); [|apply rel_purgeBuffers].
+    assert (H1 : inv (P ++ [pk]) s1).
+    { destruct (inv_incl P (P ++ [pk]) s (fun x H => in_or_app _ _ _ (or_introl H)) Hinv) as [i0 i1 i2 i3 i4 i5 i6].
+      constructor; subst s1; cbn [set_buf buf prep built released filled active fault]; auto.
+      - intros k p [E|H].
+        + injection E as <- <-. split; [apply in_or_app; right; left; reflexivity|reflexivity].
+        + apply In_bdel in H. apply i1. tauto.
+      - unfold pool in *. cbn [set_buf buf released map bset snd].
+        apply NoDup_insert.
+        + unfold bdel. apply map_filter_sub. exact i4.
+        + intro Hc. apply Hfresh. destruct Hinv as [_ _ _ _ _ j5 _]. apply j5.
+          unfold pool. apply in_app_or in Hc. apply in_or_app. destruct Hc as [Hc|Hc]; [left; exact Hc|right].
+          apply in_map_iff in Hc. destruct Hc as (e & He1 & He2). apply in_map_iff. exists e. split; [exact He1|].
+          apply incl_bdel in He2. exact He2.
+      - unfold pool in *. cbn [set_buf buf released map bset snd]. intros id Hid.
+        apply in_app_or in Hid. destruct Hid as [Hid|[Hid|Hid]].
+        + apply i5. apply in_or_app. left. exact Hid.
+        + subst id. apply in_map. apply in_or_app. right. left. reflexivity.
+        + apply i5. apply in_or_app. right.
+          apply in_map_iff in Hid. destruct Hid as (e & He1 & He2). apply in_map_iff. exists e. split; [exact He1|].
+          apply incl_bdel in He2. exact He2. }
+    apply (inv_rel _ s1); [exact H1|].
+    assert (Hf : loc_ok (filled s1)) by (destruct H1 as [[Hf _] _ _ _ _ _ _]; exact Hf).
+    subst s2. destruct (compare (filled s1) (p_seq pk)); try apply rel_refl; apply rel_set_filled; intros _;
+      split; cbn; try apply inc16_lt; try assumption; apply Hf.
+  Qed.
+
+  Lemma inv_pop : forall P s, inv P s ->
+    inv P (fst (pop s)) /\ (forall x, snd (pop s) = Some x -> In x (built (fst (pop s)))) /\
+    incl (built s) (built (fst (pop s))).
+  Proof.
+    intros P s Hinv. unfold SampleBuilder.pop.
+    destruct (buildSample_rel false s) as [Rb _].
+    set (s1 := fst (buildSample false s)) in *.
+    pose proof (inv_rel _ _ _ Hinv Rb) as H1.
+    destruct (l_empty (prepared s1)); cbn [fst snd].
+    - split; [exact H1|]. split; [discriminate|]. apply (r_built_mono _ _ _ _ _ Rb).
+    - split; [|split].
+      + destruct H1 as [i0 i1 i2 i3 i4 i5 i6]. constructor; cbn [buf prep built released filled active fault]; auto.
+        intros e He. apply In_bdel in He. apply i3. tauto.
+      + intros x Hx. cbn [built]. apply bget_In in Hx. destruct H1 as [_ _ _ i3 _ _ _]. apply (i3 _ Hx).
+      + cbn [built]. apply (r_built_mono _ _ _ _ _ Rb).
+  Qed.
+
+  Lemma NoDup_app_l : forall {A} (l1 l2 : list A), NoDup (l1 ++ l2) -> NoDup l1.
+  Proof.
+    intros A l1. induction l1 as [|a l1 IH]; intros l2 H; [constructor|].
+    cbn in H. inversion H as [|x l Hn Hd]; subst. constructor.
+    - intro Hc. apply Hn. apply in_or_app. left. exact Hc.
+    - eapply IH. exact Hd.
+  Qed.
+
+  Lemma pushed_of_app : forall a b, pushed_of (a ++ b) = pushed_of a ++ pushed_of b.
+  Proof. intros. unfold pushed_of. apply flat_map_app. Qed.
+
+  (* the invariant over every history, with the samples returned so far *)
+  Theorem run_inv : forall ops P s outs,
+    inv P s -> incl outs (built s) ->
+    (forall pk, In pk (pushed_of ops) -> p_seq pk < 65536) ->
+    NoDup (map p_id (P ++ pushed_of ops)) ->
+    let r := fold_left (fun acc o =>
+                 let r := step (fst acc) o in
+                 (fst r, match snd r with Some x => snd acc ++ [x] | None => snd acc end))
+              ops (s, outs) in
+    inv (P ++ pushed_of ops) (fst r) /\ incl (snd r) (built (fst r)).
+  Proof.
+    induction ops as [|o ops IH]; intros P s outs Hinv Hout Hseq Hnd; cbn [fold_left].
+    - cbn. rewrite app_nil_r. split; assumption.
+    - destruct o as [pk| |]; cbn [SampleBuilder.step fst snd].
+      + (* Push *)
+        change (pushed_of (OPush pk :: ops)) with ([pk] ++ pushed_of ops) in *.
+        rewrite app_assoc in Hnd |- *.
+        apply IH.
+        * apply inv_push; [exact Hinv|apply Hseq; left; reflexivity|].
+          pose proof Hnd as Hnd'. rewrite map_app in Hnd'. apply NoDup_app_l in Hnd'. rewrite map_app in Hnd'. cbn in Hnd'.
+          apply NoDup_remove_2 in Hnd'. rewrite app_nil_r in Hnd'. exact Hnd'.
+        * intros x Hx. unfold SampleBuilder.push.
+          eapply (r_built_mono _ _ _ _ _ (rel_purgeBuffers false _)).
+          destruct (compare _ _); cbn; apply Hout; exact Hx.
+        * intros q Hq. apply Hseq. right. exact Hq.
+        * exact Hnd.
+      + (* Pop *)
+        change (pushed_of (OPop :: ops)) with (pushed_of ops) in *.
+        destruct (inv_pop P s Hinv) as (Hi & Hx & Hm).
+        apply IH; try assumption.
+        destruct (snd (pop s)) as [x|].
+        * intros y Hy. apply in_app_or in Hy. destruct Hy as [Hy|[<-|[]]]; [apply Hm, Hout, Hy|apply Hx; reflexivity].
+        * intros y Hy. apply Hm, Hout, Hy.
+      + (* Flush *)
+        change (pushed_of (OFlush :: ops)) with (pushed_of ops) in *.
+        unfold SampleBuilder.flush.
+        apply IH; try assumption.
+        * eapply inv_rel; [exact Hinv|apply rel_purgeBuffers].
+        * intros y Hy. apply (r_built_mono _ _ _ _ _ (rel_purgeBuffers true s)), Hout, Hy.
+  Qed.
 End Build.
